@@ -1,3 +1,4 @@
+import PikoModel.Gossip.Round
 import PikoModel.Gossip.Net
 import PikoModel.Gossip.Codec
 import Driver.Util
@@ -88,6 +89,24 @@ def hgossip (net : Net) (n dst : String) (max : Nat) : Net × String :=
       else
         (net, "hgossip " ++ sect net n .plain [] ++ outStr ["digest ~"])
 
+/-- `Gossip.gossipRound`: one digest request to a random live peer and one to a random
+unreachable peer (`roundTargets`; the draws are the real code's own, so only the candidate sets
+and the number of requests are printed - the harness checks that each request went to a member
+of its set).  The datagrams are not pooled (= lost). -/
+def hround (net : Net) (n : String) (max : Nat) : Net × String :=
+  match net.nodes.find n with
+  | none => (net, "err no-node")
+  | some s =>
+    let me := own s
+    let h : Codec.DigestHeader := { nodeId := me.id, addr := me.addr, request := true }
+    let srt (l : List NodeSt) := (l.map (·.id)).mergeSort (fun a b => decide (a ≤ b))
+    let live := srt (liveNodes s)
+    let un := srt (unreachableNodes s)
+    -- the first `gossip` call fails on the header and `gossipRound` returns
+    let sent := if (Codec.digestPrefix h).length > max then 0 else (roundTargets s 0 0).length
+    (net, "hround " ++ sect net n .plain [] ++ " live=[" ++ joinWith "," (live.map hexEnc) ++ "] unreach=[" ++
+      joinWith "," (un.map hexEnc) ++ "] sent=" ++ toString sent)
+
 def hdeliver (net : Net) (i max : Nat) (items : Int) : Net × String :=
   match net.pool[i]? with
   | none => (net, "err no-packet")
@@ -172,6 +191,10 @@ def step (net : Net) (ws : List String) : Net × String :=
   | ["hgossip", n, dst, mx] =>
     match natKV "max=" mx with
     | some max => hgossip net (hx n) (hx dst) max
+    | none => (net, "bad-op")
+  | ["hround", n, mx] =>
+    match natKV "max=" mx with
+    | some max => hround net (hx n) max
     | none => (net, "bad-op")
   | ["hdeliver", i, mx, it] =>
     match i.toNat?, natKV "max=" mx, intKV "items=" it with
